@@ -402,7 +402,12 @@ TEXT = {
           "blocks, contract blocks and momentums, delivered to a follower before the honest data - generated contract blocks also by "
           "gossip with their empty key fields filled - and AFTER the follower verified the original and lost it in a reorganisation; "
           "whatever is accepted must be "
-          "stored with the original's bytes; known finding F9 for ChangesHash); typed RLP decoding and JSON object structure are covered by "
+          "stored with the original's bytes; known finding F9 for ChangesHash); the typed RLP decoder of account blocks "
+          "(Model/CodecRLPTyped, Props/C13Rlp: typed round trip, ab-unrlp lines with typed-level mutations) and the JSON object "
+          "structure of blocks and momentums (Model/CodecJson, Props/C13Json: round trips, unknown / missing members, amount and "
+          "number forms; member names regenerated from the struct tags; json-mar / json-unm lines: real MarshalJSON output and real "
+          "UnmarshalJSON of mutated texts against the model) are modelled, with bech32 / hex / base64 leaf forms as parameters; the "
+          "typed RLP decoder of momentums and the rpc/api wrapper members are covered by "
           "Go-side round-trip monitors, T4 by an AST fact plus monitors (no Lean model of the ABI): ValidateSendBlock of every "
           "method directly, and owner-signed send blocks with non-canonical call data delivered end to end to real nodes "
           "(gossip, publish, inside a momentum) - refused or stored canonical, never stored as delivered.",
